@@ -18,6 +18,7 @@ def run(ctx):
     sig.text_mode_selection(ctx, P)
     sig.salt_fed_at_every_hasher(ctx, P)
     sig.salt_length_checked_where_hashed(ctx, P)
+    sig.hash_dispatch_tables_agree(ctx, P)
     c11.salt_tables(ctx, P)
     c14.hasher_rules(ctx, P)
     c14.reader_rules(ctx, P)
@@ -28,3 +29,7 @@ def run(ctx):
     sig.s15_5_version_alignment_sign(ctx, P)
     sig.s02_11_every_key_tries_every_signature(ctx, P)
     sig.s02_9_parallel_slots(ctx, P)
+    # what a verifier refuses in the subpacket areas (unknown critical subpacket, issuer fingerprint of another version) the signer
+    # refuses too, because both make that decision in the one function all of them pass: hash_signature_data (shared with C15)
+    from rules import c15
+    c15.s15_6(ctx, P)
